@@ -13,6 +13,13 @@ Definition accepts (c : command) : bool :=
   | _ => true
   end.
 
+(* a promise is only ever completed by the four-command completion transaction, in one atomic step; its four
+   commands never occur on their own *)
+Definition is_up (c : command) : bool :=
+  match c with UpdatePromise _ | CompleteTasks _ _ | CreateTasks _ _ | DeleteCallbacks _ => true | _ => false end.
+Definition txn_shape (cs : list command) : Prop :=
+  (exists u t, cs = completion_txn u t) \/ Forall (fun c => is_up c = false) cs.
+
 Definition creation_eq (p q : promise) : Prop :=
   p_id p = p_id q /\ p_sort p = p_sort q /\ p_ph p = p_ph q /\ p_pd p = p_pd q /\ p_timeout p = p_timeout q /\
   p_ikc p = p_ikc q /\ p_tags p = p_tags q /\ p_created p = p_created q.
